@@ -96,6 +96,6 @@ theorem C12_shared_count (snapped : List (Ival α)) (isIntegral : List Bool) (en
         · simp [throw, throwThe, MonadExceptOf.throw, StateT.lift, StateT.run] at h
 
 /-- Non-vacuity: sizes 30 and 40 are balanced by 33 result rows. -/
-example : Balanced 30 40 33 := by unfold Balanced; decide
+example : RowsBalanced 30 40 33 := by unfold RowsBalanced; decide
 
 end
